@@ -4,8 +4,8 @@
 // ASSUME: GALOIS_FORCE_STANDALONE (the repository's own switch) routes FixedSizeAllocator to malloc; the Galois heaps are C09's subject
 // ASSUME: ONE worker thread operates on the worklist (chunk hand-off between workers, the executor and the abort path are separate obligations); pool configuration 0 = 1 thread, 1 = 2 threads on 2 sockets with the worker being thread 1, 2 = 2 threads on 1 socket with the worker being thread 1; the worklist object is constructed on thread 0 as for_each_impl does
 // ASSUME: operation KINDS are enumerated as separate solver queries (vf_param); item values are solver variables in 0..3; --max-field-sensitivity-array-size 300 lets CBMC track the 256-byte per-thread blocks per byte (otherwise pointers stored there are never constant-propagated)
-// OB: ob_wl_chunk tier=quick solver=cadical unwind=32 timeout=600 cbmc="--max-field-sensitivity-array-size 300" params=4,2 bounds="ChunkFIFO<2>, ChunkLIFO<2>, PerSocketChunkFIFO<2>, PerSocketChunkLIFO<2>, PerSocketChunkBag<2> (one after the other in each query): 4 kind sequences of 5..7 ops from {push(v), push(range of 2), pop, flush} (table SEQ_F rows 0-3; all 6 rows and chunk size 3 in the thorough tier), then pops until empty + 2 more; values symbolic in 0..3; pool configuration {1 thread; 2 threads on 2 sockets, worker = thread 1}" desc="pop returns only pending items, each once; an empty pop means nothing is pending (nothing stranded in a private chunk, also after flush); after draining nothing comes back"
-// OB: ob_wl_ptchunk tier=quick solver=cadical unwind=32 timeout=600 cbmc="--max-field-sensitivity-array-size 300" params=3,3 bounds="PerThreadChunkFIFO<2>, PerThreadChunkLIFO<2>: 3 kind sequences of 5..6 ops from {push(v), push(range of 2), pop} (table SEQ_N rows 0-2) x pool configuration {1 thread; 2 threads/2 sockets; 2 threads/1 socket (steal attempts on the idle peer)}" desc="work conservation, one worker"
+// OB: ob_wl_chunk tier=quick solver=cadical unwind=32 timeout=600 cbmc="--max-field-sensitivity-array-size 300" params=3,2 bounds="ChunkFIFO<2>, ChunkLIFO<2>, PerSocketChunkFIFO<2>, PerSocketChunkLIFO<2>, PerSocketChunkBag<2> (one after the other in each query): 3 kind sequences of 5..7 ops from {push(v), push(range of 2), pop, flush} (table SEQ_F rows 0-2; all 6 rows and chunk size 3 in the thorough tier), then pops until empty + 2 more; values symbolic in 0..3; pool configuration {1 thread; 2 threads on 2 sockets, worker = thread 1}" desc="pop returns only pending items, each once; an empty pop means nothing is pending (nothing stranded in a private chunk, also after flush); after draining nothing comes back"
+// OB: ob_wl_ptchunk tier=quick solver=cadical unwind=32 timeout=600 cbmc="--max-field-sensitivity-array-size 300" params=2,3 bounds="PerThreadChunkFIFO<2>, PerThreadChunkLIFO<2>: 2 kind sequences of 5..6 ops from {push(v), push(range of 2), pop} (table SEQ_N rows 0-1; all rows in the thorough tier) x pool configuration {1 thread; 2 threads/2 sockets; 2 threads/1 socket (steal attempts on the idle peer)}" desc="work conservation, one worker"
 #include "C01_wl_common.h"
 #include "galois/worklists/Chunk.h"
 #include "galois/worklists/PerThreadChunk.h"
